@@ -147,8 +147,11 @@ def monitor(world, obs, scn, stages):
     for n, name, path in groups:
         stage, _, kind = name.rpartition("_")
         if stage == "field":
-            # (field hooks after the execution stage closed -- items of a failed list still running -- are
-            # not ordered by the property; they are only checked for pairing below)
+            # field hooks after the execution stage closed are only tolerated when something failed (items of a
+            # failed list still running); in a request where every resolver succeeds, the execution stage must
+            # enclose every field hook, otherwise its end hook fired before execution had finished
+            if "execution" not in stack and not (scn.get("overrides") or {}):
+                probs.append(("field-hook-outside-execution", "%s %s with open stages %s" % (name, path, stack)))
             continue
         if kind == "start":
             seen[stage] = seen.get(stage, 0) + 1
